@@ -7,6 +7,12 @@ CHECKS = {}
 
 CHECKS["C02"] = {
     "level": "exploration",
+    "technique": "bounded-exhaustive enumeration of a slot grammar on the real parser, ground truth by construction",
+    "level_text": "Every sentence of the gen_http slot grammar with at most 2 (quick) / 3 (thorough) non-default slots, under all 8 supported "
+                  "personalities, plus all pipelines of length <=3 over 10 representatives, is parsed by the real library and compared field by field "
+                  "with the structure the generator encoded. Exhaustive within the stated grammar and bound; not a proof for messages outside it.",
+    "level_note": "Trusted: the generator (mc/gen.c) as the definition of 'what was sent'; fold joints accept SP or the raw LWS run; whole-stream delivery.",
+    "design_ref": "DESIGN.md §6 C02",
     "rule": "gen_http slot grammar: every message with <= D non-default slots (D=2 quick, 3 thorough) x 8 personalities, plus every pipeline of "
             "length <= 3 over 10 representative messages; each execution compared field by field with the generator's own structure; "
             "distinct = distinct observation digests",
@@ -17,6 +23,13 @@ CHECKS["C02"] = {
 
 CHECKS["C03"] = {
     "level": "model_checking",
+    "technique": "stateless deviation-bounded exploration of segmentation (all cut sets up to a bound, 1-byte delivery) with a differential oracle on the real code",
+    "level_text": "For every exchange of the set, every way of cutting both streams with at most 2 (quick) / 3 (thorough, windowed above 90 bytes) cuts, uniform "
+                  "1/2/3/7-byte delivery and all partitions of the micro set are executed on the real parser and the complete observation (all tx fields, bodies, "
+                  "raw header bytes, per-tx callback order) must equal the uncut run. Coverage statement, not a sample: no execution within the bound differs.",
+    "level_note": "Assumes the exchange set of mc/cutmc.c (slot grammar <=1 deviation in both pipeline positions, adversarial bodies x framings); raw header/trailer-data "
+                  "callbacks are compared by content, not position (they are flushed per chunk by design); HTP_MULTI_PACKET_HEAD masked as the statement says.",
+    "design_ref": "DESIGN.md §6 C03",
     "rule": "E1 cutmc seg: for each exchange (gen <=1-deviation set as message 1 and 2 of a pipeline, adversarial bodies under every framing, micro set) "
             "every cut set of size <= D over all byte positions of both streams, uniform 1/2/3/7-byte delivery, all 2^(n-1) partitions of the micro set; "
             "oracle = digest equality with the uncut execution; distinct = distinct callback traces (kind,tx,len,hash) per exchange",
@@ -26,3 +39,40 @@ CHECKS["C03"] = {
     "jobs": lambda tier: [J("cutmc", "plain", ["--mode", "seg"]),
                           J("cutmc", "asan", ["--mode", "seg", "--layers", "1" if tier == "quick" else "2"])],
 }
+
+
+def manifest():
+    import json, os
+    root = os.path.dirname(os.path.dirname(os.path.abspath(__file__)))
+    props = [json.loads(l) for l in open(os.path.join(root, "properties.jsonl"))]
+    old = json.load(open(os.path.join(root, "MANIFEST.json")))
+    checks, na = [], []
+    for p in props:
+        pid = p["id"]
+        c = CHECKS.get(pid)
+        if c is None or c.get("disabled"):
+            na.append({"property_id": pid, "reason": (c or {}).get("disabled") or "check not built yet (work in progress; planned as bounded exhaustive exploration, see DESIGN.md §6)"})
+            continue
+        checks.append({
+            "property_id": pid,
+            "quick_cmd": f"bin/vcheck {pid} --tier quick",
+            "thorough_cmd": f"bin/vcheck {pid} --tier thorough",
+            "evidence_file": f"evidence/{pid}.json",
+            "replay_cmd_template": "bin/vcheck replay {path}",
+            "engine": "+".join(sorted({j["engine"] for j in c["jobs"]("thorough")})),
+            "level_claimed": {"category": c["level"], "text": c["level_text"], "design_ref": c.get("design_ref", "DESIGN.md §6")},
+            "level_note": c["level_note"],
+            "technique": c["technique"],
+        })
+    old["checks"] = checks
+    old["not_applicable"] = na
+    old["engines"] = ENGINES
+    json.dump(old, open(os.path.join(root, "MANIFEST.json"), "w"), indent=1)
+
+
+ENGINES = [
+    {"name": "cutmc", "path": "mc/cutmc.c", "serves_properties": ["C02", "C03"], "kind_free_text": "E1: stateless deviation-bounded explorer of segmentation / generated grammar on the real code"},
+]
+
+if __name__ == "__main__":
+    manifest()
